@@ -54,7 +54,9 @@ RULE = (
     "cost_promotion/rush_promotion with random or GP (bayesopt, hypertune) searcher, synchronous Hyperband custom/"
     "geometric, DEHB (rare), PBT, MedianStoppingRule, MOASHA) x 3-10 trials x 1-3 failure targets, each = (failure point, "
     "which opportunity) with failure point in {before_first, between, at_rung, after_resume, with_decision} x workers x "
-    "arrival policy x metric table x (finite space with allow_duplicates for the no-repeat clause). Distinct = digest of "
+    "arrival policy x metric table x (finite space with allow_duplicates for the no-repeat clause; half of the GP Hyperband "
+    "histories: allow_duplicates=True on a 6-9 point space, 2-3 initial random choices, 7-10 trials, so that failures land "
+    "after the searcher holds an observation of the trial and many model-based suggestions follow). Distinct = digest of "
     "(kind, searcher, failure events (trial, point, level), sequence of event kinds after the first failure); non-trivial "
     "= at least one failure was delivered and at least one scheduler call was answered after it."
 )
@@ -184,6 +186,12 @@ def floors(tier):
         "decided:resume_after_failure_not_failed_trial": 150 * k,
         "decided:new_config_vs_failed_configs": 1500 * k,
         "decided:new_config_vs_failed_configs:allow_duplicates": 100 * k,
+        # GP searcher + allow_duplicates + small finite space: the failed list alone keeps a failed configuration out
+        "gp:failure_events:trial_had_observations:allow_duplicates": 100 * k,
+        "decided:no_resuggest_of_failed:gp:allow_duplicates:failed_after_observation": 500 * k,
+        "decided:no_resuggest_of_failed:gp:allow_duplicates:failed_after_observation:model_based_phase": 400 * k,
+        "decided:no_resuggest_of_failed:gp:allow_duplicates:failed_after_observation:model_based_phase:bayesopt": 250 * k,
+        "decided:no_resuggest_of_failed:gp:allow_duplicates:failed_after_observation:model_based_phase:hypertune": 120 * k,
         "decided:sync_rung_completed_with_failed_slot": 40 * k,
         "scenarios_with_2+_failures": 300 * k,
         "scenarios_with_3_failures": 60 * k,
